@@ -22,3 +22,5 @@ def run(prog, rep):
     r_null.run_strings(prog, rep)
     r_safe.run_narrow(prog, rep)
     r_safe.run_buf(prog, rep)
+    from ..rules import r_flow
+    r_flow.run_forward(prog, rep, which=(), mode='Compression', rid='R-FORWARD-COMP', floor=8, backend=True)
